@@ -290,6 +290,21 @@ def install(E):
             return z3.Implies(z3.And(und, first), disabled)
         return z3.Implies(z3.And(und, first), z3.Or(arg.z == text, disabled))
 
+    def dr_titan_disabled(ctx, old, args, outcome):
+        """with uploads not enabled EVERY complete titan:// line within the limit is answered 50 - well-formed or not"""
+        p, data = args
+        o = old.snap[p.oid]
+        und = z3.And(z3.Not(o["request_taken"].z), z3.Not(o["response_sent"].z), z3.Not(o["url_line_received"].z))
+        b2 = z3.Concat(o["buffer"].z, data.z)
+        i = z3.IndexOf(b2, CRLF, 0)
+        L = z3.SubString(b2, 0, i)
+        first = z3.And(i >= 0, i + 2 <= 1024, codecs_model.valid_utf8(L))
+        text = codecs_model.utf8dec(L)
+        no_up = z3.Not(env.present(old.snap[p.oid].get("upload_handler")))
+        t = T_of(ctx, p)
+        opened = z3.Not(old.snap[t.oid]["g_closed"].z)
+        return z3.Implies(z3.And(und, first, no_up, z3.PrefixOf(SV("titan://"), text), opened), z3.PrefixOf(SV("50 "), out_of(ctx, p)))
+
     def dr_refusal_status(ctx, old, args, outcome):
         """a response produced without consulting the chain or a handler is a 59 (50: Titan disabled)"""
         p, data = args
@@ -326,6 +341,7 @@ def install(E):
                  ("[C01,C08] over-long input is refused with 59 and reaches no handler or middleware", dr_oversize),
                  ("[C07,C08] a complete line of at most 1022 bytes is the request line whatever the read boundaries: it is parsed (or answered 50 for titan:// with uploads disabled), never refused as over-long", dr_line_processed),
                  ("[C08] a request refused before the chain/handler is answered 59 (50 when uploads are disabled)", dr_refusal_status),
+                 ("[C08] with uploads not enabled every complete titan:// line is answered 50, whether or not it is a well-formed Titan request", dr_titan_disabled),
                  ("[C07,C14] Titan content is exactly the first `size` bytes after the request line; fewer bytes only wait", dr_titan_content)])
 
     # ======================================================================================
